@@ -9,9 +9,13 @@ Per case (seeded schema x generated valid instance x converter class x converter
   * strict-encode soundness: the decoded data is mutated (drop / duplicate / retype / reorder /
     wrong container) and `encode(validation='strict')` must raise a validation error or return a
     tree that the schema accepts;
-  * correspondence implementation <-> Lean model (XsVerif/Model/Converters.lean): every real
+  * correspondence implementation <-> Lean model (XsVerif/Model/Converters.lean: JsonML,
+    Model/DataElement.lean: DataElementConverter, Model/DefaultConv.lean: the default convention with
+    preserve_root=False): every real
     `element_decode` / `element_encode` call is captured (converter subclasses that only record) and
-    compared with the model's one-level function; the whole captured ElementData tree is sent through
+    compared with the model's one-level function; hand-made one-level inputs (`direct_cases`: the witnesses
+    of the `_counterexample` theorems, objects that are not DataElements, adjacent cdata parts, list values,
+    foreign keys) go through the real methods and the model as well; the whole captured ElementData tree is sent through
     the model's `decTree`/`encTree` and compared with the real decode result and the ElementData tree of
     the real encode; `iter_unordered_content` / `iter_collapsed_content` are replayed against the model
     with the recorded behaviour of the real ModelVisitor.
@@ -31,18 +35,27 @@ from harness import lib_c05 as L
 PROPS = 'XsVerif.Props.C05'
 AUDIT = 'XsVerif.Audit.C05'
 LEAN_TARGETS = ['XsVerif.Props.C05', 'XsVerif.Props.C05Encode', 'drv_c05', 'drv_c01']
-LEANCHECK = ['XsVerif.Model.Converters', 'XsVerif.Model.ContentOrder', 'XsVerif.Props.C05', 'XsVerif.Props.C05Encode']
+LEANCHECK = ['XsVerif.Model.Converters', 'XsVerif.Model.ContentOrder', 'XsVerif.Model.DataElement',
+             'XsVerif.Model.DefaultConv', 'XsVerif.Lemmas.Tree', 'XsVerif.Lemmas.DataElement',
+             'XsVerif.Lemmas.DefaultConv', 'XsVerif.Props.C05', 'XsVerif.Props.C05Encode']
 RULE = ('a case is one (schema seed, instance, converter class, converter options[, mutation]); non-trivial = the '
         'document has at least one child element or attribute and the converter took a non-default branch '
         '(attributes dict, text, cdata, list value, repeated name collapsed into a list) — tagged by the branch '
         'set computed from the captured ElementData; distinct by canonical JSON of (xsd, xml, converter, options, '
-        'mutation)')
+        'mutation); direct/witness cases are hand-made one-level ElementData / data objects for the DataElement and '
+        'default converters (always non-trivial: they exist to reach error and collision branches)')
 TRUSTED = ['typed leaf values are opaque atoms in the model (kind, lexical); simple-type encoders/decoders are '
            'exercised on the real code only (C02 owns them)',
            'map_qname/unmap_qname are parameters of the theorems (left-inverse hypothesis); the tables used by the '
            'driver are dumped from the real converter for every document (C17 owns the namespace mapper)',
            'the ModelVisitor is a parameter of the permutation theorems; in the correspondence its behaviour is '
-           'recorded from the real visitor (C01 owns the visitor)']
+           'recorded from the real visitor (C01 owns the visitor)',
+           'default convention: preserve_root=True (the root wrapper) is not modelled (such cases are skipped in the '
+           'model comparison and counted); dict_class/list_class are the built-in ones; a child without a declaration '
+           '(keep_unknown) is not an Item of the model',
+           'DataElementConverter: map_attribute_names=True (default) only; element_encode of something that is not a '
+           'DataElement is modelled as repaired by notes/fixes/C05-dataelement-encode-type.patch (finding C05-F11 on '
+           'the unpatched tree)']
 ASSUMPTIONS = ['round trip is evaluated for valid documents only (generated instances that the schema rejects are '
                'counted and skipped)',
                'for the collapsing conventions (default/BadgerFish/GData) the equality clauses are required only '
@@ -1406,9 +1419,11 @@ def run(ctx: Ctx, driver_ok: bool) -> None:
     explore(ctx, drv, ctx.pick(40, 250), ctx.pick(3, 5), ctx.pick(4, 6))
     ctx.extra['explanation'] = ('seeded random schemas x valid instances x 5 converter classes x options; per case: '
                                 'round trip on the real code, mutated-data strict encode, Lean model comparison '
-                                '(JsonML: every element_decode/element_encode call + whole tree; '
+                                '(JsonML, DataElement, default: every element_decode/element_encode call + whole tree, '
+                                'plus hand-made one-level calls and the witnesses of the _counterexample theorems; '
                                 'iter_unordered_content/iter_collapsed_content replayed with the recorded visitor)')
     ctx.extra['converters_modelled_in_lean'] = list(MODELLED)
+    ctx.extra['counterexample_witnesses_replayed_on_real_code'] = [w[0] for w in WITNESSES]
     ctx.extra['converters_differential_only'] = [c for c in conv_classes() if c not in MODELLED]
 
 
